@@ -190,3 +190,59 @@ def check_rebuild(orc):
             orc.fail("C11.flat", "the environment's own flat action list "
                      "changed during the run")
     orc.probe("rebuild_compared")
+
+
+def check_decode_sample(orc, n=150):
+    """The environment's parameterised space still decodes vectors to the
+    documented actions *now* (after other environments were built, episodes
+    played, ...): a seeded sample of vectors, same expectation as at boot."""
+    sim, cfg, env = orc.sim, orc.cfg, orc.sim.env
+    if sim.table.flat:
+        return
+    pspace = env.action_space
+    nvec = [int(v) for v in pspace.nvec]
+    first_e = {}
+    for name, e in cfg.exploits.items():
+        first_e.setdefault((e["service"], e["os"]), (name, e))
+    first_p = {}
+    for name, p in cfg.privescs.items():
+        first_p.setdefault((p["process"], p["os"]), (name, p))
+    rng = core.stream(sim.seed, "c11-again-%d" % len(sim.ops))
+    for _ in range(n):
+        vec = tuple(rng.randrange(k) for k in nvec)
+        try:
+            a = pspace.get_action(list(vec))
+        except Exception as e:
+            orc.fail("C11.param", "a vector of the parameterised space does "
+                     "not decode (any more)", vector=list(vec),
+                     error=f"{type(e).__name__}: {e}")
+        typ, s, h, osi, sv, pr = vec
+        subnet = s + 1
+        host = h % cfg.subnets[subnet]
+        kind = TYPES[typ]
+        os_name = None if osi == 0 else cfg.os[osi - 1]
+        if kind == "exploit":
+            d = first_e.get((cfg.services[sv], os_name))
+            exp = None if d is None else desc(
+                "exploit", (subnet, host), d[0], d[1]["cost"], d[1]["prob"],
+                d[1]["service"], None, d[1]["os"], d[1]["access"])
+        elif kind == "privesc":
+            d = first_p.get((cfg.processes[pr], os_name))
+            exp = None if d is None else desc(
+                "privesc", (subnet, host), d[0], d[1]["cost"], d[1]["prob"],
+                None, d[1]["process"], d[1]["os"], d[1]["access"])
+        else:
+            exp = desc(kind, (subnet, host), kind, cfg.scan_cost[kind], 1.0,
+                       None, None, None, None)
+        got_d = desc_of(a)
+        if exp is None:
+            if got_d[0] != "noop" or float(a.cost) != 0:
+                orc.fail("C11.param", "an undefined service/OS or "
+                         "process/OS combination must decode to a zero-cost"
+                         " no-op", vector=list(vec), decoded=str(a))
+        elif got_d != exp:
+            orc.fail("C11.param", "a parameter vector does not decode to the "
+                     "action it documents (checked again during the run)",
+                     vector=list(vec), decoded=list(map(str, got_d)),
+                     expected=list(map(str, exp)))
+    orc.probe("decode_rechecked")
